@@ -18,4 +18,5 @@ func vConn() *nats.Conn                                                         
 func vOnRequest(nc *nats.Conn, f func(subject string, data []byte) ([]byte, bool)) {}
 func vEvents(nc *nats.Conn) []vEvent                                                 { return nil }
 func vServe(nc *nats.Conn, subject string, handler func(*nats.Msg))                  {}
+func vPublish(nc *nats.Conn, subject string, data []byte)                           {}
 func vGo(f func())                                                                   {}
